@@ -74,3 +74,39 @@ pub fn read_slpp_frag(bytes: &[u8], skip: bool, frag: crate::stream::Frag) -> Ou
 	let r = crate::stream::FragReader::new(bytes, frag);
 	guard(|| ppi::read(r, Some(&opts)))
 }
+
+/// A sink that fails (a full disk, a closed pipe) once `limit` bytes have been written.
+pub struct FailWriter {
+	pub limit: usize,
+	pub written: usize,
+}
+
+impl std::io::Write for FailWriter {
+	fn write(&mut self, buf: &[u8]) -> std::io::Result<usize> {
+		if self.written >= self.limit {
+			return Err(std::io::Error::new(std::io::ErrorKind::Other, "sink full"));
+		}
+		let n = buf.len().min(self.limit - self.written).max(1).min(buf.len());
+		self.written += n;
+		Ok(n)
+	}
+	fn flush(&mut self) -> std::io::Result<()> {
+		Ok(())
+	}
+}
+
+/// A write into a failing sink; the outcome is not examined (history for the writes that follow it).
+pub fn fail_write_slp(game: &Game, limit: usize) {
+	let _ = guard(|| slippi::write(&mut FailWriter { limit, written: 0 }, game));
+}
+
+pub fn fail_write_slpp(game: Game, comp: Comp, limit: usize) {
+	let opts = ppi::ser::Opts {
+		compression: match comp {
+			Comp::None => None,
+			Comp::Lz4 => Some(arrow2::io::ipc::write::Compression::LZ4),
+			Comp::Zstd => Some(arrow2::io::ipc::write::Compression::ZSTD),
+		},
+	};
+	let _ = guard(|| ppi::write(FailWriter { limit, written: 0 }, game, Some(&opts)).map_err(|e| format!("{}", e)));
+}
